@@ -105,7 +105,7 @@ var swarmSwitch = [][2]int{{1, 50}, {1, 10}, {3, 10}, {6, 10}}
 func (h *Harness) configure(record bool) func(src simrt.Source) simrt.Config {
 	return func(src simrt.Source) simrt.Config {
 		sw := swarmSwitch[src.Choose(len(swarmSwitch), "cfg.switch")]
-		c := simrt.Config{SwitchNum: sw[0], SwitchDen: sw[1], Record: record, MaxSteps: h.MaxSteps}
+		c := simrt.Config{SwitchNum: sw[0], SwitchDen: sw[1], Record: record, MaxSteps: h.MaxSteps, Debug: os.Getenv("VERIF_DEBUG") != ""}
 		c.Strategy = src.Choose(3, "cfg.strategy")
 		if !h.NoDelays && len(h.DelayPalette) > 0 {
 			switch src.Choose(3, "cfg.delay") {
